@@ -32,6 +32,32 @@ def fresh_container(e) -> bool:
         (isinstance(e, ast.Call) and call_name(e) in ("dict", "set", "OrderedDict", "collections.OrderedDict", "list") and not e.args and not e.keywords)
 
 
+def check_lookup_by_identifier(ctx, rule):
+    prog = ctx.prog
+    # ------------------------------------------------------------------ R3.6 lookup by the whole identifier
+    ctx.rule(rule, "the binary decoder resolves a record's descriptor only by the identifier carried in the record frame (name AND hash): no fallback to a lookup by name")
+    uo = ctx.anchor_func("flow.record.packer.RecordPacker.unpack_obj")
+    ucfg6 = CFG(uo)
+    finals = [c for c in calls_in(uo) if isinstance(c.func, ast.Attribute) and c.func.attr == "_unpack" and isinstance(c.func.value, ast.Attribute) and c.func.value.attr == "recordType"
+              and isinstance(c.func.value.value, ast.Name)]
+    ctx.floor(rule, "record constructions in unpack_obj", len(finals), 2)
+    for fc in finals:
+        dv = fc.func.value.value.id
+        rdefs = [ucfg6.nodes[i].ast for i in ucfg6.reaching_defs(dv).get((ucfg6.header_node_for_expr(fc) or ucfg6.node_of(fc)).id, set()) if ucfg6.nodes[i].ast is not None]
+        for d in rdefs:
+            v = d.value if isinstance(d, ast.Assign) else None
+            key = None
+            if isinstance(v, ast.Call) and isinstance(v.func, ast.Attribute) and v.func.attr == "get" and norm(v.func.value) == "self.descriptors" and v.args:
+                key = v.args[0]
+            elif isinstance(v, ast.Subscript) and norm(v.value) == "self.descriptors":
+                key = v.slice
+            whole = key is not None and not (isinstance(key, ast.Subscript) or (isinstance(key, ast.Attribute) and key.attr in ("name",)))
+            ctx.check(whole, rule, f"unpack_obj:descriptor-lookup:{norm(v)[:50] if v is not None else norm(d)[:50]}",
+                      f"the descriptor for a record is taken from `{norm(v) if v is not None else norm(d)}`: a lookup by anything less than the identifier of the frame (e.g. the type name) decodes "
+                      "the record with another version of the type", d, "self.descriptors[<identifier of the frame>]", key=f"{rule}:unpack_obj:lookup-not-by-identifier")
+
+
+
 def run(ctx):
     prog = ctx.prog
     ctx.trust("msgpack / json.dumps invoke the default= hook for a nested object before the enclosing frame is returned (depth-first)")
@@ -295,6 +321,8 @@ def run(ctx):
                           "record exhausts it, a second writer given the same object emits no member descriptors and its stream cannot be decoded", st, "a list / tuple",
                           key="R3.3:GroupedRecord.descriptors:one-shot-iterator")
     ctx.floor("R3.3", "assignments of GroupedRecord.descriptors", n_gd, 1)
+
+    check_lookup_by_identifier(ctx, "R3.6")
 
     # ------------------------------------------------------------------ R3.4 key injectivity
     ctx.rule("R3.4", "the identifier (name, hash) distinguishes same-name descriptors only through the hash input, which must be an injective "
